@@ -68,7 +68,7 @@ class C05(Prop):
     id = "C05"
     parallel = False   # engine is timing-sensitive (real Quinn loopback / OS threads parked at hooks): one harness process at a time
     modules = ["H3.Props.C05"]
-    engines = ["cell"]
+    engines = ["cell", "cellmv", "flt5"]
     design_ref = "DESIGN.md section 7, C05; Appendix B.2"
     level_text = ("Lean theorems over a small-step model of the connection error cell (OnceLock cell, AtomicWaker, executor "
                   "notification, driver pc/handled/close calls, n stream handles): for every number of handles, every error "
@@ -76,7 +76,9 @@ class C05(Prop):
                   "returned to any handle or by the driver is convert(cell), for ever; close is called at most once, only for a "
                   "locally detected winner, with exactly its code; with register-before-check no reachable quiescent state has the "
                   "cell set and the driver parked without a pending notification; with check-before-register a five-step schedule "
-                  "loses the wake-up (decide)")
+                  "loses the wake-up (decide); shutdown() starts with the same check without a waker (check_connection_error): in "
+                  "every reachable state with the cell set it answers convert(cell), closes exactly closeOf(cell), and with a "
+                  "handled error it decides to report it before sent_closing or the control stream are touched")
     level_note = ("trusted: Lean kernel + 3 standard axioms; the model is tied to the code by executing every interleaving (at the "
                   "granularity of the pre-emption hooks) of driver polls with 1..3 raising handles on the real SharedState/"
                   "ConnectionInner of a real server::Connection over the in-memory transport, OS threads parked at the hooks; "
@@ -86,7 +88,13 @@ class C05(Prop):
             "ordered pairs of error kinds + 18900), each followed by later calls on every handle and two more driver polls; all "
             "interleavings of a poll ending in a driver-detected error and of two successive polls with 1..2 handles; all "
             "interleavings of one poll of the real accept() future (3 poll_connection_error rounds, ending in Pending or in a "
-            "transport error) with 1..2 handles; non-trivial = some error was raised and the line is not bad-op/bad-flow/panic")
+            "transport error) with 1..2 handles; engine `flt5` (tools/props/faults.py): whole connections over SimQuic whose "
+            "transport fails at every call of the setup (the `*_raw` error paths used before the connection object exists), at "
+            "the own control stream's writes, at poll_accept_recv / poll_accept_bidi / reads, on the grease stream, x every "
+            "ConnectionErrorIncoming / StreamErrorIncoming variant, followed by later accept/wait_idle/shutdown calls; the history "
+            "is judged by H3.Spec.Faults (one outcome, reported by every later driver call incl. shutdown, close exactly for "
+            "locally detected errors, once, with that code); non-trivial = some error was raised and the line is not "
+            "bad-op/bad-flow/panic")
     trusted = ["futures_util::task::AtomicWaker and std::sync::OnceLock are linearizable with their documented semantics "
                "(register stores the waker, wake takes and wakes it, get_or_init stores at most once)",
                "the harness scheduler (one OS thread per task, exactly one released at a time) realises the schedule it is given"]
@@ -205,12 +213,26 @@ class C05(Prop):
         rng.shuffle(mv)
         for l in mv[:(20000 if big else 4000)]:
             L.append("cellmv " + l[len("cell "):])
+        # whole connections whose transport fails (setup, control stream writes, accept, reads, grease stream)
+        from props import faults
+        L += ["flt5 " + l[len("flt "):] for l in faults.cases(big, rng)]
         return L
+
+    def project_all(self, lines, impls):
+        from props import faults
+        res = list(impls)
+        idx = [i for i, l in enumerate(lines) if l.startswith("flt")]
+        for i, p in zip(idx, faults.project_all([lines[i] for i in idx], [impls[i] for i in idx])):
+            res[i] = p
+        return res
 
     # ---------------------------------------------------------------- statistics
 
     def klass(self, line, impl):
         w = line.split()
+        if w[0].startswith("flt"):
+            from props import faults
+            return faults.klass(line, impl)
         n = sum(1 for x in w if x.startswith("S") and "=" in x)
         toks = impl.split(" | ")[0].split()
         f = dict(t.split("=", 1) for t in toks if "=" in t)
@@ -240,9 +262,15 @@ class C05(Prop):
             "+".join(sorted(path)) or "none")
 
     def trivial(self, line, impl):
+        if line.startswith("flt"):
+            from props import faults
+            return faults.trivial(line, impl)
         return not impl.startswith("cell=") or impl.startswith("cell=- ")
 
     def shrink_candidates(self, line):
+        if line.startswith("flt"):
+            w = line.split()
+            return [" ".join(w[:3] + w[3:3 + i] + w[4 + i:]) for i in range(len(w) - 3) if len(w) > 4]
         head, _, sched = line.partition(" : ")
         labels = sched.split()
         out = []
